@@ -198,6 +198,8 @@ pub struct Space {
     atoms: Vec<Atom>,
     prods: Vec<(K, &'static [usize])>,
     c: Vec<Vec<u64>>,
+    /// a space given by an explicit list of terms (all in the single "size" class 1)
+    fixed: Option<Vec<T>>,
 }
 
 /// the enumerated fragments
@@ -223,8 +225,84 @@ pub fn space(name: &str, max: usize) -> Space {
             vec![Atom::Int],
             PRODS.iter().cloned().filter(|p| matches!(p.0, K::Lam | K::App | K::RXY | K::RYX | K::PX | K::PY | K::Arr2)).collect(),
         ),
+        // shape products around let-generalisation under escaping variables (see level_templates)
+        "levels" => Space::fixed("levels", level_templates()),
         other => panic!("unknown space {}", other),
     }
+}
+
+/// Full product of shapes in which a variable of an ENCLOSING lambda meets the parameter of a
+/// let-bound function inside a type constructor — the situations in which generalisation levels
+/// must be lowered. These terms have size 9-16, far above the exhaustive size bound.
+///   outer  in { \y -> ., \w -> \y -> . }
+///   let    in { let f x = I in U, rec let f x = I in U, let f = \x -> I in U }
+///   I      in 8 ways of combining y with C[x]
+///   C[x]   in { x, {x = x}, {x = x, y = 1}, (x, 1), [x], \z -> x, S x }
+///   U      in { f 1, (f 1, f "s"), {x = f 1, y = f "s"}, f, [f 1], f (f 1) }
+pub fn level_templates() -> Vec<T> {
+    use T::*;
+    let b = |t: T| Box::new(t);
+    let int = || Atom(self::Atom::Int);
+    let strl = || Atom(self::Atom::Str);
+    let mut out = Vec::new();
+    for outer in 0..2usize {
+        // y is the innermost outer lambda; d = number of variables in scope inside the outer lambdas
+        let (yl, d) = if outer == 0 { (0usize, 1usize) } else { (1, 2) };
+        for letk in 0..3usize {
+            // levels of f and x inside I, of f inside U
+            let (xl, fl_use) = match letk {
+                0 => (d, d),     // LetF: x at d in I; f at d in U
+                1 => (d + 1, d), // LetRec: f at d, x at d + 1 in I
+                _ => (d, d),     // Let(Lam): x at d in I
+            };
+            let inner_depth = xl + 1;
+            for ci in 0..7usize {
+                let c = |x: T| -> T {
+                    match ci {
+                        0 => x,
+                        1 => Rec(vec![("x", x)]),
+                        2 => Rec(vec![("x", x), ("y", Atom(self::Atom::Int))]),
+                        3 => Tup(Box::new(x), Box::new(Atom(self::Atom::Int))),
+                        4 => Arr(vec![x]),
+                        5 => Lam(Box::new(x)),
+                        _ => App(Box::new(Atom(self::Atom::S)), Box::new(x)),
+                    }
+                };
+                for ii in 0..8usize {
+                    let y = || Var(yl);
+                    let x = || Var(xl);
+                    let inner = match ii {
+                        0 => App(b(y()), b(c(x()))),
+                        1 => Arr(vec![App(b(y()), b(int())), c(x())]),
+                        2 => Tup(b(App(b(y()), b(c(x())))), b(x())),
+                        3 => If(b(Atom(self::Atom::True)), b(App(b(y()), b(int()))), b(c(x()))),
+                        4 => Rec(vec![("x", App(b(y()), b(c(x()))))]),
+                        5 => App(b(Proj(b(y()), "x")), b(c(x()))),
+                        6 => App(b(App(b(y()), b(c(x())))), b(x())),
+                        _ => Let(b(App(b(y()), b(c(x())))), b(Var(inner_depth))),
+                    };
+                    for ui in 0..6usize {
+                        let f = || Var(fl_use);
+                        let usage = match ui {
+                            0 => App(b(f()), b(int())),
+                            1 => Tup(b(App(b(f()), b(int()))), b(App(b(f()), b(strl())))),
+                            2 => Rec(vec![("x", App(b(f()), b(int()))), ("y", App(b(f()), b(strl())))]),
+                            3 => f(),
+                            4 => Arr(vec![App(b(f()), b(int()))]),
+                            _ => App(b(f()), b(App(b(f()), b(int())))),
+                        };
+                        let body = match letk {
+                            0 => LetF(b(inner.clone()), b(usage)),
+                            1 => LetRec(b(inner.clone()), b(usage)),
+                            _ => Let(b(Lam(b(inner.clone()))), b(usage)),
+                        };
+                        out.push(if outer == 0 { Lam(b(body)) } else { Lam(b(Lam(b(body)))) });
+                    }
+                }
+            }
+        }
+    }
+    out
 }
 
 fn compositions(total: usize, parts: usize, f: &mut dyn FnMut(&[usize])) {
@@ -272,13 +350,25 @@ impl Space {
                 c[s][d] = total;
             }
         }
-        Space { name, max, atoms, prods, c }
+        Space { name, max, atoms, prods, c, fixed: None }
+    }
+    pub fn fixed(name: &'static str, terms: Vec<T>) -> Space {
+        Space { name, max: 1, atoms: vec![], prods: vec![], c: vec![], fixed: Some(terms) }
+    }
+    pub fn is_fixed(&self) -> bool {
+        self.fixed.is_some()
     }
     pub fn count(&self, s: usize) -> u64 {
+        if let Some(f) = &self.fixed {
+            return if s == 1 { f.len() as u64 } else { 0 };
+        }
         self.c[s][0]
     }
     /// the `i`-th term of size `s` with `d` variables in scope
     pub fn unrank(&self, s: usize, d: usize, mut i: u64) -> T {
+        if let Some(f) = &self.fixed {
+            return f[i as usize].clone();
+        }
         if s == 1 {
             let i = i as usize;
             return if i < self.atoms.len() { T::Atom(self.atoms[i]) } else { T::Var(i - self.atoms.len()) };
@@ -2129,7 +2219,7 @@ pub fn check_terms(srv: &mut Server, acc: &mut Acc, space: &Space, size: usize, 
     let cases: Vec<Case> = indices
         .map(|index| {
             let t = space.unrank(size, 0, index);
-            debug_assert_eq!(t.size(), size);
+            debug_assert!(space.is_fixed() || t.size() == size);
             let pre = preamble(&t);
             let (body, let_names) = print_term(&t, Naming::Base, None);
             let w = algw::principal_with_lets(&t, sab);
@@ -2423,9 +2513,9 @@ fn merge(total: &mut Acc, a: Acc) {
 pub fn bounds(tier: &str) -> Vec<(&'static str, usize)> {
     let get = |var: &str, d: usize| std::env::var(var).ok().and_then(|s| s.parse().ok()).unwrap_or(d);
     if tier == "quick" {
-        vec![("ml", get("VERIF_C03_SIZE", 5)), ("rows", get("VERIF_C03_ROWS_SIZE", 6)), ("rows2", get("VERIF_C03_ROWS2_SIZE", 7))]
+        vec![("levels", 1), ("ml", get("VERIF_C03_SIZE", 5)), ("rows", get("VERIF_C03_ROWS_SIZE", 6)), ("rows2", get("VERIF_C03_ROWS2_SIZE", 7))]
     } else {
-        vec![("ml", get("VERIF_C03_SIZE", 6)), ("rows", get("VERIF_C03_ROWS_SIZE", 8)), ("rows2", get("VERIF_C03_ROWS2_SIZE", 8))]
+        vec![("levels", 1), ("ml", get("VERIF_C03_SIZE", 6)), ("rows", get("VERIF_C03_ROWS_SIZE", 8)), ("rows2", get("VERIF_C03_ROWS2_SIZE", 8))]
     }
 }
 
